@@ -1,5 +1,5 @@
 // C15: type expressions map to Go types by the documented grammar, in each of
-// the five syntactic positions.
+// the six syntactic positions.
 package c15
 
 import (
@@ -221,7 +221,7 @@ func enum(k int, atoms []Ty, memo map[int][]Ty) []Ty {
 	return out
 }
 
-// --- rendering a file with every expression in the five positions -----------------
+// --- rendering a file with every expression in the six positions -----------------
 
 const prelude = `package main
 
@@ -236,6 +236,7 @@ package_info ext =
 @USERTYPES@
 package_info _ =
   type Wrapped
+  let mkNone<T>: ()->[]T
 `
 
 const userTypes = `type R0 = {X: int}
@@ -254,7 +255,7 @@ and U0 =
   | UB of int
 `
 
-var positions = []string{"param", "field", "payload", "pkginfo", "typearg"}
+var positions = []string{"param", "field", "payload", "pkginfo", "typearg", "utypearg"}
 
 // render builds one .fo file placing expression i (for i in range) in the
 // requested positions, and the table label -> expected Go type.
@@ -315,6 +316,11 @@ func render(exprs []Ty, pos map[string]bool) (string, map[string]string) {
 			fmt.Fprintf(&sb, "let ta%d () = slice.New<%s> ()\n\n", i, t.src(0))
 			want[fmt.Sprintf("typearg:%d", i)] = t.goType()
 		}
+		if pos["utypearg"] {
+			// explicit type argument on an unqualified name: another route through the parser
+			fmt.Fprintf(&sb, "let tu%d () = mkNone<%s> ()\n\n", i, t.src(0))
+			want[fmt.Sprintf("utypearg:%d", i)] = t.goType()
+		}
 	}
 	return sb.String(), want
 }
@@ -372,6 +378,16 @@ func extract(goSrc string) (map[string]string, error) {
 						got["pkginfo:"+name[2:]] = types.ExprString(ft.Params.List[0].Type)
 					}
 				}
+			case strings.HasPrefix(name, "tu") && isNum(name[2:]):
+				ast.Inspect(x.Body, func(n ast.Node) bool {
+					if call, ok := n.(*ast.CallExpr); ok {
+						if ix, ok := call.Fun.(*ast.IndexExpr); ok {
+							got["utypearg:"+name[2:]] = types.ExprString(ix.Index)
+							return false
+						}
+					}
+					return true
+				})
 			case strings.HasPrefix(name, "ta") && isNum(name[2:]):
 				ast.Inspect(x.Body, func(n ast.Node) bool {
 					if call, ok := n.(*ast.CallExpr); ok {
@@ -541,11 +557,11 @@ func TestTypesExhaustive(t *testing.T) {
 	full0, full1 := enum(0, atomsOf(fullAtoms), fm), enum(1, atomsOf(fullAtoms), fm)
 	red2 := enum(2, atomsOf(reducedAtoms), rm)
 	parts := []part{
-		{"<=1 constructor, full atom set, all 5 positions", append(append([]Ty{}, full0...), full1...), allPos()},
+		{"<=1 constructor, full atom set, all 6 positions", append(append([]Ty{}, full0...), full1...), allPos()},
 		{"<=1 constructor, full atom set, record-field and payload positions of an and-group that declares the user types it mentions later (forward references)", append(append([]Ty{}, full0...), full1...), map[string]bool{"field": true, "payload": true, "fwd": true}},
 	}
 	if e.Thorough() {
-		parts = append(parts, part{"2 constructors, reduced atom set {int,string,ext.Thing}, all 5 positions", red2, allPos()})
+		parts = append(parts, part{"2 constructors, reduced atom set {int,string,ext.Thing}, all 6 positions", red2, allPos()})
 		red3 := enum(3, atomsOf([]string{"int", "ext.Thing"}), map[int][]Ty{})
 		parts = append(parts, part{"3 constructors, atom set {int,ext.Thing}, record-field position", red3, map[string]bool{"field": true}})
 	} else {
